@@ -63,12 +63,12 @@ def _stage(ck, tag, calls, counter, x_list, family, replay=None):
     i = counter[0]
     counter[0] += 1
     if i >= len(calls):
-        ck.add(f"{tag}/too-few-calls/{i}", False, [], family=family)
+        ck.add(f"{tag}/too-few-calls/{i}", False, [], family=family, replay=replay or _loop_replay(), meta={"structural": True})
         return [np.array(x, dtype=object) for x in x_list]
     name, args, outs = calls[i]
     for k, (x, a) in enumerate(zip(x_list, args)):
         if tuple(x.shape) != tuple(a.shape):
-            ck.add(f"{tag}/call{i}/arg{k}/shape", False, [], family=family)
+            ck.add(f"{tag}/call{i}/arg{k}/shape", False, [], family=family, replay=replay or _loop_replay(), meta={"structural": True})
             continue
         for c in np.ndindex(a.shape):
             ck.add(f"{tag}/call{i}/arg{k}/{'_'.join(map(str, c))}", sym.equal_goal(a[c], x[c]), [], family=family, replay=replay or _loop_replay())
@@ -185,6 +185,21 @@ def _loop_replay():
                 cur = step(cur)
             if not bool(jnp.all(got == cur)):
                 bad.append(("repeat", n))
+            # constant auxiliary input, including shapes whose leading axis happens to have length n
+            for aux_c in (jnp.arange(6, dtype=jnp.int32).reshape(2, 3) + 7, jnp.arange(3, dtype=jnp.int32) + 5, jnp.int32(4)):
+                try:
+                    got = ex.rollout(step_aux, n, takes_aux=True, constant_aux=True)(u0, aux_c)
+                    gotr = ex.repeat(step_aux, n, takes_aux=True, constant_aux=True)(u0, aux_c)
+                except Exception as ex_:  # noqa
+                    bad.append(("constant-aux raises", n, tuple(jnp.shape(aux_c)), type(ex_).__name__))
+                    continue
+                cur, exp = u0, []
+                for _ in range(n):
+                    cur = step_aux(cur, aux_c)
+                    exp.append(cur)
+                exp = jnp.stack(exp) if exp else jnp.zeros((0, 2, 3), jnp.int32)
+                if got.shape != exp.shape or not bool(jnp.all(got == exp)) or not bool(jnp.all(gotr == cur)):
+                    bad.append(("constant-aux", n, tuple(jnp.shape(aux_c))))
         return {"reproduced": bool(bad), "detail": f"integer bookkeeping stepper: mismatching configurations {bad[:6]}"}
 
     return replay
